@@ -1887,3 +1887,270 @@ Proof.
   cbn [wf_ops wit_hist_ok wf_op]. wf_tac.
   vm_compute. eexists. split; [right; left; reflexivity|reflexivity].
 Qed.
+
+(** * iteration over a log whose truncations were aimed at record starts: the records tile [start, write offset) *)
+Section Tiling.
+Variable H : N.
+Variable compress : list N -> list N.
+
+Local Notation a_end := (a_end H compress).
+Local Notation a_len := (a_len H compress).
+
+Fixpoint tiled (lo : N) (l : list arec) (hi : N) : Prop :=
+  match l with [] => lo = hi | r :: t => a_off r = lo /\ tiled (a_end r) t hi end.
+
+Lemma a_len_pos r : 8 <= a_len r.
+Proof. unfold Seglog.a_len. change RECORD_HEAD with 8. lia. Qed.
+Lemma a_end_gt r : a_off r + 8 <= a_end r.
+Proof. unfold Seglog.a_end. pose proof (a_len_pos r). lia. Qed.
+
+Lemma tiled_le lo l hi : tiled lo l hi -> lo <= hi.
+Proof.
+  revert lo. induction l as [|r l IH]; intros lo Ht; cbn in Ht; [lia|].
+  destruct Ht as [Ho Ht]. apply IH in Ht. pose proof (a_end_gt r). lia.
+Qed.
+Lemma tiled_bounds lo l hi : tiled lo l hi -> Forall (fun x => lo <= a_off x /\ a_end x <= hi) l.
+Proof.
+  revert lo. induction l as [|r l IH]; intros lo Ht; [constructor|]. destruct Ht as [Ho Ht].
+  pose proof (tiled_le _ _ _ Ht). pose proof (a_end_gt r). constructor; [lia|].
+  eapply Forall_impl; [|apply IH; exact Ht]. intros x [? ?]. cbn beta. lia.
+Qed.
+Lemma tiled_app_one lo l hi r : tiled lo l hi -> a_off r = hi -> tiled lo (l ++ [r]) (a_end r).
+Proof.
+  revert lo. induction l as [|x l IH]; intros lo Ht Hr; cbn in *; [split; [lia|reflexivity]|].
+  destruct Ht as [Ho Ht]. split; [assumption|]. apply IH; assumption.
+Qed.
+Lemma tiled_map_set_hdr off hdr lo l hi : tiled lo l hi -> tiled lo (map (set_hdr off hdr) l) hi.
+Proof.
+  revert lo. induction l as [|x l IH]; intros lo Ht; cbn in *; [assumption|]. destruct Ht as [Ho Ht].
+  split; [rewrite a_off_set_hdr; assumption|]. rewrite (a_end_set_hdr H compress). apply IH. assumption.
+Qed.
+Lemma filter_none_above lo l hi o : tiled lo l hi -> o <= lo -> filter (fun x => a_end x <=? o) l = [].
+Proof.
+  intros Ht Ho. apply tiled_bounds in Ht. induction Ht as [|x l [Hx1 Hx2] _ IH]; [reflexivity|]. cbn [filter].
+  pose proof (a_end_gt x). destruct (N.leb_spec (a_end x) o); [lia|]. exact IH.
+Qed.
+Lemma tiled_truncate lo l hi r : tiled lo l hi -> In r l ->
+  tiled lo (filter (fun x => a_end x <=? a_off r) l) (a_off r).
+Proof.
+  revert lo. induction l as [|x l IH]; intros lo Ht Hin; [contradiction|]. destruct Ht as [Ho Ht]. cbn [filter].
+  destruct Hin as [->|Hin].
+  - pose proof (a_end_gt r). destruct (N.leb_spec (a_end r) (a_off r)); [lia|].
+    rewrite (filter_none_above _ _ _ (a_off r) Ht) by lia. cbn. lia.
+  - pose proof (tiled_bounds _ _ _ Ht) as Hb. rewrite Forall_forall in Hb. destruct (Hb r Hin) as [Hr1 Hr2].
+    destruct (N.leb_spec (a_end x) (a_off r)); [|lia]. cbn [tiled]. split; [assumption|]. apply IH; assumption.
+Qed.
+
+(* the invariant of the specification under boundary truncations *)
+Definition sp_tiled (start : N) (sp : spec) : Prop :=
+  tiled start (sp_log sp) (sp_off sp) /\ sp_flushed sp <= sp_off sp.
+
+Lemma sp_tiled_step start sp op : sp_tiled start sp -> boundary_op sp op -> start <= sp_off sp ->
+  sp_tiled start (spec_step H compress sp op) /\ start <= sp_off (spec_step H compress sp op).
+Proof.
+  intros [Ht Hf] Hb Hs. unfold sp_tiled. destruct op as [hdr data| | |o|b| |r|r off seq|r off|r off hdr]; cbn [spec_step]; try (split; [split|]; assumption).
+  - set (r := {| a_off := sp_off sp; a_comp := sp_comp sp; a_hdr := hdr; a_data := data |}).
+    destruct (_ <? _); [split; [split|]; assumption|]. cbn [sp_log sp_off sp_flushed].
+    pose proof (a_end_gt r). split; [split|]; [apply (tiled_app_one _ _ (sp_off sp)); [assumption|reflexivity]|cbn [a_off r] in *; unfold r in *; cbn in *; lia|unfold r in *; cbn in *; lia].
+  - cbn [sp_log sp_off sp_flushed]. split; [split|]; [assumption|lia|assumption].
+  - destruct (N.leb_spec (sp_off sp) o); [split; [split|]; assumption|]. cbn [sp_log sp_off sp_flushed].
+    cbn [boundary_op] in Hb. destruct Hb as [Hb|(r & Hin & <-)]; [lia|].
+    pose proof (tiled_bounds _ _ _ Ht) as Hbd. rewrite Forall_forall in Hbd. destruct (Hbd r Hin).
+    split; [split|]; [apply (tiled_truncate _ _ (sp_off sp)); assumption|lia|lia].
+  - destruct (Nat.ltb _ _); cbn [sp_log sp_off sp_flushed]; (split; [split|]; assumption).
+  - destruct (_ && _); [|split; [split|]; assumption]. cbn [sp_log sp_off sp_flushed].
+    split; [split|]; [apply tiled_map_set_hdr; assumption|assumption|assumption].
+Qed.
+
+Lemma sp_tiled_run start : forall ops sp, sp_tiled start sp -> start <= sp_off sp -> boundary_ops H compress sp ops ->
+  sp_tiled start (spec_run H compress sp ops).
+Proof.
+  induction ops as [|op ops IH]; intros sp Ht Hs Hb; [exact Ht|]. destruct Hb as [Hb1 Hb2].
+  destruct (sp_tiled_step start sp op Ht Hb1 Hs) as [Ht' Hs']. cbn [spec_run fold_left]. apply IH; assumption.
+Qed.
+
+(* in a tiled log the record starting at a given offset is found, and iteration walks the records in order *)
+Lemma find_tiled lo l1 r l2 hi : tiled lo (l1 ++ r :: l2) hi ->
+  find (fun x => a_off x =? a_off r) (l1 ++ r :: l2) = Some r.
+Proof.
+  revert lo. induction l1 as [|x l1 IH]; intros lo Ht; cbn [app find].
+  - rewrite N.eqb_refl. reflexivity.
+  - destruct Ht as [Ho Ht]. pose proof (tiled_bounds _ _ _ Ht) as Hb. rewrite Forall_forall in Hb.
+    destruct (Hb r ltac:(apply in_or_app; right; left; reflexivity)) as [Hr _]. pose proof (a_end_gt x).
+    destruct (N.eqb_spec (a_off x) (a_off r)); [lia|]. eapply IH. exact Ht.
+Qed.
+
+Lemma filter_cons {A} (p : A -> bool) (x : A) l : filter p (x :: l) = (if p x then [x] else []) ++ filter p l.
+Proof. cbn [filter]. destruct (p x); reflexivity. Qed.
+
+Lemma filter_before off l1 (p : arec -> bool) : Forall (fun x => a_off x < off) l1 ->
+  filter (fun r => (off <=? a_off r) && p r) l1 = [].
+Proof.
+  induction 1 as [|x l Hx _ IH]; [reflexivity|]. cbn [filter]. destruct (N.leb_spec off (a_off x)); [lia|]. exact IH.
+Qed.
+
+Lemma spec_iter_tiled sp start : sp_tiled start sp ->
+  forall l2 l1 r fuel, sp_log sp = l1 ++ r :: l2 -> (N.to_nat ((sp_flushed sp - a_off r) / 8) < fuel)%nat ->
+  spec_iter H compress fuel sp (a_off r) = Some (flushed_from H compress sp (a_off r)).
+Proof.
+  intros [Ht Hf]. induction l2 as [|r' l2 IH]; intros l1 r fuel Hlog Hfuel.
+  - (* r is the last record *)
+    destruct fuel as [|fuel]; [lia|]. cbn [spec_iter]. change RECORD_HEAD with 8.
+    rewrite Hlog in Ht. pose proof (find_tiled _ _ _ _ _ Ht) as Hfind.
+    assert (Hl1 : Forall (fun x => a_off x < a_off r) l1).
+    { clear - Ht. revert Ht. generalize start. induction l1 as [|x l1 IH]; intros lo Ht; [constructor|]. destruct Ht as [Ho Ht].
+      pose proof (tiled_bounds _ _ _ Ht) as Hb. rewrite Forall_forall in Hb.
+      destruct (Hb r ltac:(apply in_or_app; right; left; reflexivity)) as [Hr _]. pose proof (a_end_gt x).
+      constructor; [lia|]. eapply IH. exact Ht. }
+    assert (Hend : a_end r = sp_off sp).
+    { clear - Ht. revert Ht. generalize start. induction l1 as [|x l1 IH]; intros lo Ht; cbn in Ht; [tauto|]. destruct Ht as [_ Ht]. eapply IH. exact Ht. }
+    unfold flushed_from. rewrite Hlog, filter_app, (filter_before _ _ _ Hl1). cbn [app filter].
+    destruct (N.leb_spec (a_off r) (a_off r)); [|lia]. cbn [andb]. pose proof (a_end_gt r).
+    destruct (N.ltb_spec (sp_flushed sp - a_off r) 8).
+    + destruct (N.leb_spec (a_end r) (sp_flushed sp)); [lia|]. reflexivity.
+    + rewrite Hfind. destruct (N.ltb_spec (sp_flushed sp) (a_end r)); destruct (N.leb_spec (a_end r) (sp_flushed sp)); try lia; [reflexivity|].
+      destruct fuel as [|fuel]; [exfalso; lia|]. cbn [spec_iter]. change RECORD_HEAD with 8.
+      destruct (N.ltb_spec (sp_flushed sp - a_end r) 8); [reflexivity|lia].
+  - (* r is followed by r' *)
+    destruct fuel as [|fuel]; [lia|]. cbn [spec_iter]. change RECORD_HEAD with 8.
+    pose proof Ht as Ht0. rewrite Hlog in Ht. pose proof (find_tiled _ _ _ _ _ Ht) as Hfind.
+    assert (Hl1 : Forall (fun x => a_off x < a_off r) l1).
+    { clear - Ht. revert Ht. generalize start. induction l1 as [|x l1 IH']; intros lo Ht; [constructor|]. destruct Ht as [Ho Ht].
+      pose proof (tiled_bounds _ _ _ Ht) as Hb. rewrite Forall_forall in Hb.
+      destruct (Hb r ltac:(apply in_or_app; right; left; reflexivity)) as [Hr _]. pose proof (a_end_gt x).
+      constructor; [lia|]. eapply IH'. exact Ht. }
+    assert (Hnext : a_off r' = a_end r /\ Forall (fun x => a_end r <= a_off x /\ a_end x <= sp_off sp) (r' :: l2)).
+    { clear - Ht. revert Ht. generalize start. induction l1 as [|x l1 IH']; intros lo Ht; cbn in Ht.
+      - destruct Ht as [_ Ht]. split; [apply Ht|]. apply (tiled_bounds (a_end r) (r' :: l2) (sp_off sp)). exact Ht.
+      - destruct Ht as [_ Ht]. eapply IH'. exact Ht. }
+    destruct Hnext as [Hn1 Hn2]. pose proof (a_end_gt r).
+    assert (Hrest_none : sp_flushed sp < a_end r -> filter (fun x => (a_off r <=? a_off x) && (a_end x <=? sp_flushed sp)) (r' :: l2) = []).
+    { intros Hlt. clear - Hn2 Hlt. induction Hn2 as [|x l [Hx1 Hx2] _ IH']; [reflexivity|]. cbn [filter].
+      pose proof (a_end_gt x). destruct (N.leb_spec (a_end x) (sp_flushed sp)); [lia|]. rewrite andb_false_r. exact IH'. }
+    assert (Hff : flushed_from H compress sp (a_off r) =
+                  map (fun x => (a_off x, a_expect H compress x))
+                      ((if a_end r <=? sp_flushed sp then [r] else []) ++
+                       filter (fun x => (a_off r <=? a_off x) && (a_end x <=? sp_flushed sp)) (r' :: l2))).
+    { unfold flushed_from. rewrite Hlog, filter_app, (filter_before _ _ _ Hl1). cbn [app]. rewrite filter_cons.
+      destruct (N.leb_spec (a_off r) (a_off r)); [|lia]. cbn [andb]. reflexivity. }
+    rewrite Hff.
+    destruct (N.ltb_spec (sp_flushed sp - a_off r) 8).
+    + destruct (N.leb_spec (a_end r) (sp_flushed sp)); [lia|]. rewrite Hrest_none by lia. reflexivity.
+    + rewrite Hlog, Hfind.
+      destruct (N.ltb_spec (sp_flushed sp) (a_end r)); destruct (N.leb_spec (a_end r) (sp_flushed sp)); try lia.
+      * rewrite Hrest_none by lia. reflexivity.
+      * (* r complete: continue at r' *)
+        rewrite <- Hn1.
+        assert (Hlog' : sp_log sp = (l1 ++ [r]) ++ r' :: l2) by (rewrite <- app_assoc; exact Hlog).
+        rewrite (IH (l1 ++ [r]) r' fuel Hlog') by (rewrite Hn1; lia).
+        cbn [app map]. f_equal. f_equal.
+        unfold flushed_from. rewrite Hlog, filter_app.
+        assert (Hl1' : Forall (fun x => a_off x < a_off r') l1) by (eapply Forall_impl; [|exact Hl1]; intros; cbn beta in *; lia).
+        rewrite (filter_before _ _ _ Hl1'). cbn [app]. rewrite filter_cons.
+        destruct (N.leb_spec (a_off r') (a_off r)); [lia|]. cbn [andb app]. f_equal.
+        apply filter_ext_in. intros x Hx. rewrite Forall_forall in Hn2. destruct (Hn2 x Hx).
+        destruct (N.leb_spec (a_off r') (a_off x)); destruct (N.leb_spec (a_off r) (a_off x)); try lia; reflexivity.
+Qed.
+
+(** iteration from the start of ANY live record yields exactly the flushed records from there on *)
+Theorem spec_iter_total size start ops :
+  start <= size -> boundary_ops H compress (spec_init size start) ops ->
+  let sp := spec_run H compress (spec_init size start) ops in
+  forall r, In r (sp_log sp) ->
+  spec_iter H compress (scan_fuel (sp_flushed sp)) sp (a_off r) = Some (flushed_from H compress sp (a_off r)).
+Proof.
+  intros Hs Hb sp r Hin.
+  assert (Ht : sp_tiled start sp).
+  { apply sp_tiled_run; [split; cbn; [reflexivity|lia]|cbn; lia|assumption]. }
+  apply in_split in Hin. destruct Hin as (l1 & l2 & Hlog).
+  apply (spec_iter_tiled sp start Ht l2 l1 r); [assumption|].
+  unfold scan_fuel. change RECORD_HEAD with 8.
+  assert ((sp_flushed sp - a_off r) / 8 <= sp_flushed sp / 8) by (apply N.div_le_mono; lia). lia.
+Qed.
+
+End Tiling.
+
+Theorem iter_flushed H compress decompress size start ops :
+  (forall x, decompress (compress x) = Some x) -> (forall x, all_bytes x -> all_bytes (compress x)) ->
+  start <= size -> wf_ops H compress (spec_init size start) ops ->
+  known_free H compress decompress (sl_init size start) ops = true ->
+  boundary_ops H compress (spec_init size start) ops ->
+  let s := fst (sl_run H compress decompress (sl_init size start) ops) in
+  let sp := spec_run H compress (spec_init size start) ops in
+  forall r ra rec, nth_error (s_readers s) r = Some ra -> In rec (sp_log sp) ->
+  exists ra' o, iter_all H decompress (w_file (s_w s)) (w_flushed (s_w s)) ra (a_off rec) =
+                (ra', flushed_from H compress sp (a_off rec), o, TEnd).
+Proof.
+  intros Hd Hb Hs Hwf Hk Hbo s sp r ra rec Hr Hin.
+  assert (I : INV2 H compress s sp) by (apply inv_run; [assumption|assumption|apply inv_init; assumption|assumption|assumption]).
+  pose proof (i_sp _ _ _ _ (proj1 I)) as (_ & Isp2 & _).
+  apply (iter_exact H compress decompress Hd Hb s sp r ra (a_off rec)); [assumption|assumption|].
+  rewrite <- Isp2. apply spec_iter_total; assumption.
+Qed.
+
+
+(** * the C18 statements, in the form Props/C18.v states them *)
+Section C18Top.
+Variable H : N.
+Variable compress : list N -> list N.
+Variable decompress : list N -> option (list N).
+Variables (size start : N) (ops : list sl_op).
+Hypothesis Hcodec : codec_ok compress decompress.
+Hypothesis Hstart : start <= size.
+Hypothesis Hwf : wf_ops H compress (spec_init size start) ops.
+Hypothesis Hkf : known_free H compress decompress (sl_init size start) ops = true.
+
+Let s := fst (sl_run H compress decompress (sl_init size start) ops).
+Let sp := spec_run H compress (spec_init size start) ops.
+
+Lemma c18_inv : INV2 H compress s sp.
+Proof. destruct Hcodec as [Hd Hb]. apply inv_run; [assumption|assumption|apply inv_init; assumption|assumption|assumption]. Qed.
+
+Lemma c18_read_exact r ra rec seq : nth_error (s_readers s) r = Some ra -> In rec (sp_log sp) ->
+  snd (read_record H decompress (w_file (s_w s)) (w_flushed (s_w s)) ra (a_off rec) seq) = spec_read H compress sp rec.
+Proof. destruct Hcodec as [Hd Hb]. intros. apply (read_exact H compress decompress Hd Hb s sp r ra rec seq); [apply c18_inv|assumption|assumption]. Qed.
+
+Lemma c18_no_unflushed r ra off seq : nth_error (s_readers s) r = Some ra ->
+  snd (read_record H decompress (w_file (s_w s)) (w_flushed (s_w s)) ra off seq) =
+  decode_view H decompress (dropN off (takeN (w_flushed (s_w s)) (w_file (s_w s)))).
+Proof. intros. apply (read_only_flushed H compress decompress s sp r ra off seq); [apply c18_inv|assumption]. Qed.
+
+Lemma c18_iter_exact r ra off l : nth_error (s_readers s) r = Some ra ->
+  spec_iter H compress (scan_fuel (w_flushed (s_w s))) sp off = Some l ->
+  exists ra' o, iter_all H decompress (w_file (s_w s)) (w_flushed (s_w s)) ra off = (ra', l, o, TEnd).
+Proof. destruct Hcodec as [Hd Hb]. intros. apply (iter_exact H compress decompress Hd Hb s sp r ra off l); [apply c18_inv|assumption|assumption]. Qed.
+
+Lemma c18_iter_flushed : boundary_ops H compress (spec_init size start) ops ->
+  forall r ra rec, nth_error (s_readers s) r = Some ra -> In rec (sp_log sp) ->
+  exists ra' o, iter_all H decompress (w_file (s_w s)) (w_flushed (s_w s)) ra (a_off rec) =
+                (ra', flushed_from H compress sp (a_off rec), o, TEnd).
+Proof. destruct Hcodec as [Hd Hb]. intros Hbo. exact (iter_flushed H compress decompress size start ops Hd Hb Hstart Hwf Hkf Hbo). Qed.
+
+Lemma c18_offsets :
+  w_off (s_w s) = sp_off sp /\ w_flushed (s_w s) = sp_flushed sp /\
+  w_flushed (s_w s) <= w_cursor (s_w s) /\ w_cursor (s_w s) + lenN (w_buf (s_w s)) = w_off (s_w s) /\
+  w_off (s_w s) <= w_size (s_w s).
+Proof.
+  destruct c18_inv as [[Ipos Ifl [Isz1 Isz2] Idirty (Isp1 & Isp2 & Isp3 & Isp4) Ilog Iord Ird] _].
+  unfold wpos in Ipos. repeat split; auto; lia.
+Qed.
+End C18Top.
+
+(* a toy codec satisfying codec_ok, for the examples *)
+Definition wit_compress (x : list N) : list N := 7 :: x.
+Definition wit_decompress (x : list N) : option (list N) := match x with 7 :: t => Some t | _ => None end.
+Lemma wit_codec_ok : codec_ok wit_compress wit_decompress.
+Proof. split; [reflexivity|]. intros x Hx. constructor; [unfold is_byte; lia|assumption]. Qed.
+Lemma wit_id_codec_ok : codec_ok wit_id wit_some.
+Proof. split; [reflexivity|]. intros x Hx. exact Hx. Qed.
+
+Lemma burst_any_reader : forall H decompress file flushed ra off seq A B P rest r e,
+  flushed <= lenN file -> coherent file flushed ra ->
+  view file flushed off = A ++ B ++ xor_bytes P e ++ rest ->
+  valid_at H decompress A B P rest r -> all_bytes e -> length P = length e -> burst32 e ->
+  snd (read_record H decompress file flushed ra off seq) = RErr ECrc.
+Proof.
+  intros H decompress file flushed ra off seq A B P rest r e Hf Hc Hv Hval He Hl Hb.
+  rewrite read_is_decode by assumption. rewrite Hv.
+  exact (burst_in_payload_detected H (fun x => x) decompress A B P rest r e Hval He Hl Hb).
+Qed.
